@@ -3,7 +3,7 @@ CONSTANTS
   Sess <- S2
   Menu <- MenuT
   Creates <- CreatesQ
-  Fees <- F01
+  Fees <- F12
   Pre <- PreA
   MaxTime = 6
   MaxLen = 9
